@@ -103,6 +103,10 @@ def execute(dev):
         return exec_nameset(dev)
     if dev.get("kind") == "notdef":
         return exec_notdef(dev)
+    if dev.get("kind") == "cli":
+        from vmc.props import c07_cli
+
+        return c07_cli.execute(dev)
 
     dev = {k: v for k, v in dev.items() if k != "_"}
     a = lattice.full(FULL, dev)
@@ -125,7 +129,7 @@ def execute(dev):
 
 def run(report, tier, only=None):
     k = int(only) if only and only.isdigit() else K[tier]
-    if only != "names":
+    if only not in ("names", "cli"):
         lattice.explore(report, DIMS, k, execute, relevant=relevant, timeout=300)
     report.extra["deviation_bound"] = k
     if only in (None, "names"):
@@ -139,7 +143,7 @@ def run(report, tier, only=None):
         vec = [f for f in FORMATS if f not in ("cbdt", "sbix")]
         cases += [{"kind": "notdef", "n": n, "pos": p, "fmt": f} for f in vec for n in (1, 2, 3) for p in range(n + 1)]
         listing.run(report, cases, execute, timeout=300)
-    if only is None:
+    if only in (None, "cli"):
         from vmc.props import c07_cli
 
         c07_cli.run(report, tier)
